@@ -279,9 +279,81 @@ def cachedMatch (cache : PatCache) (pat path : Str) (caseSensitive : Bool) : TR 
     | .ok c => (.ok (c.re.matches (fixPath path)), LRU.set cache (pat, caseSensitive) c)
 
 /-- every entry of the cache is what `match` would compute for its key — true of the empty
-cache and preserved by every call (`Fs.C14.pattern_cache_transparent`) -/
+cache and preserved by every access (`Fs.C14.pattern_cache_transparent`) -/
 def PatCache.Valid (cache : PatCache) : Prop :=
   ∀ e ∈ cache.entries, compile e.1.1 e.1.2 = .ok e.2
+
+/-- `Globber._make_iter`'s access to `_PATTERN_CACHE`: it *reads* the entry for
+`(pattern, case_sensitive)` (a hit moves it to the recent end, like every `__getitem__`); on a miss
+it compiles for itself and stores nothing. -/
+def globberCompile (cache : PatCache) (pat : Str) (caseSensitive : Bool) : TR Compiled × PatCache :=
+  match LRU.get cache (pat, caseSensitive) with
+  | some (c, cache') => (.ok c, cache')
+  | none => (compile pat caseSensitive, cache)
+
+/-- the test `Globber._make_iter` applies to one (rendered) path of the walk -/
+def globberTest (cache : PatCache) (pat subject : Str) (caseSensitive : Bool) : TR Bool × PatCache :=
+  let (c, cache') := globberCompile cache pat caseSensitive
+  (c.map (·.re.matches subject), cache')
+
+end Fs.Glob
+
+namespace Fs.Wild
+open Fs Fs.Regex
+
+/-- `fs.wildcard._PATTERN_CACHE`: `(pattern, case_sensitive) ↦ compiled pattern` -/
+abbrev PatCache := LRU.Cache (Str × Bool) Regex
+
+/-- `wildcard.match` / `wildcard.imatch` with the cache as explicit state -/
+def cachedMatch (cache : PatCache) (pat name : Str) (caseSensitive : Bool) : TR Bool × PatCache :=
+  match LRU.get cache (pat, caseSensitive) with
+  | some (r, cache') => (.ok (r.matches name), cache')
+  | none =>
+    match compile pat caseSensitive with
+    | .err e => (.err e, cache)
+    | .ok r => (.ok (r.matches name), LRU.set cache (pat, caseSensitive) r)
+
+def PatCache.Valid (cache : PatCache) : Prop :=
+  ∀ e ∈ cache.entries, compile e.1.1 e.1.2 = .ok e.2
+
+end Fs.Wild
+
+/-! ### every user of the two process-wide pattern caches, as one state machine -/
+namespace Fs.Glob
+open Fs Fs.Regex
+
+/-- one call that touches a `_PATTERN_CACHE` -/
+inductive CacheOp where
+  | globMatch (pat path : Str) (cs : Bool)      -- fs.glob.match / imatch
+  | globber (pat subject : Str) (cs : Bool)     -- Globber._make_iter (iter / count / count_lines / remove) testing one path
+  | wildMatch (pat name : Str) (cs : Bool)      -- fs.wildcard.match / imatch (and match_any, get_matcher)
+  deriving DecidableEq, Repr
+
+structure Caches where
+  glob : PatCache
+  wild : Wild.PatCache
+
+def Caches.Valid (st : Caches) : Prop := PatCache.Valid st.glob ∧ Wild.PatCache.Valid st.wild
+
+/-- the call, through the caches -/
+def CacheOp.run (st : Caches) : CacheOp → TR Bool × Caches
+  | .globMatch pat path cs => let (r, c) := cachedMatch st.glob pat path cs; (r, { st with glob := c })
+  | .globber pat subject cs => let (r, c) := globberTest st.glob pat subject cs; (r, { st with glob := c })
+  | .wildMatch pat name cs => let (r, c) := Wild.cachedMatch st.wild pat name cs; (r, { st with wild := c })
+
+/-- the same call with no cache at all -/
+def CacheOp.direct : CacheOp → TR Bool
+  | .globMatch pat path cs => gmatch pat path cs
+  | .globber pat subject cs => (compile pat cs).map (·.re.matches subject)
+  | .wildMatch pat name cs => Wild.wmatch pat name cs
+
+/-- a history of calls in one process -/
+def runAll : Caches → List CacheOp → List (TR Bool) × Caches
+  | st, [] => ([], st)
+  | st, op :: ops =>
+    let (r, st') := op.run st
+    let (rs, st'') := runAll st' ops
+    (r :: rs, st'')
 
 end Fs.Glob
 
